@@ -126,6 +126,8 @@ class Normaliser:
             is_and = isinstance(e.op, ast.And) == pos
             return _mk("and" if is_and else "or", [self.quant(v, pos) for v in e.values])
         n = call_name(e) if isinstance(e, ast.Call) else None
+        if n in ("bool", "np.bool_") and len(e.args) == 1 and not e.keywords:
+            return self.quant(e.args[0], pos)  # truth value of a reduction, made explicit
         if n in ("np.any", "np.all", "any", "all") and e.args and not e.keywords and len(e.args) == 1:
             is_any = (n.endswith("any")) == pos
             el = self.elem(e.args[0], pos)
